@@ -40,6 +40,24 @@ impl Prop for C18 {
         let mut r = Rng::new(seed);
         let pop = *r.pick(&["state", "state", "hfd", "idle"]);
         let mut case = Case { prop: "C18".into(), seed, ..Default::default() };
+        if r.chance(30) {
+            // 'on-idle-chain' population: the virtual key tapped by an on-idle action arms another
+            // on-idle itself (no key event in between), and the loop may be late (2 / 5 / 10 ms per
+            // iteration): the second one fires only after its own idle time, not on the idle
+            // time the first one had already collected
+            let t = *r.pick(&[30u64, 50, 120]);
+            let batch = *r.pick(&[1u64, 2, 5, 10]);
+            case.cfg = format!("(defsrc a)\n(defvirtualkeys v1 x v2 (multi y (on-idle {t} tap-vkey v1)))\n(deflayer l0 (on-idle {t} tap-vkey v2))\n");
+            let a = oscode_of("a");
+            case.ops = vec![Op::Gap(2), Op::Press(a), Op::Gap(r.range(2, 20) as u32), Op::Release(a), Op::Gap((4 * t + 50) as u32)];
+            case.set("pop", "on-idle-chain");
+            case.set("t", t);
+            case.set("batch", batch);
+            case.set("min_ops", 0);
+            case.set("min_cfg", 0);
+            case.set("min_gaps", 0);
+            return case;
+        }
         if r.chance(60) {
             // 'tcp-race' population (executor B): a TCP-client task operates virtual keys while the
             // real processing-loop thread runs and a feeder types; interleavings, step costs and
@@ -331,6 +349,46 @@ impl Prop for C18 {
         }
         if case.param("pop") == Some("tcp-race") {
             return check_tcp_race(case, want_sample);
+        }
+        if case.param("pop") == Some("on-idle-chain") {
+            let mut st = match Stepper::new_filtered(&case.cfg, &case.files, Mode::Ticking) {
+                Ok(s) => s,
+                Err(_) => return RunOut::skip("parser-rejected"),
+            };
+            let (t, batch) = (case.param_u64("t").unwrap_or(50), case.param_u64("batch").unwrap_or(1));
+            st.batch = batch;
+            st.run_ops(&case.ops);
+            st.finish();
+            let outs = st.trace.outs.clone();
+            let mut o = RunOut::pass();
+            o.sim_ms = st.trace.sim_ms;
+            o.count("pop.on-idle-chain", 1);
+            if batch > 1 {
+                o.count(&format!("schedule.late-loop-{batch}ms-per-iteration"), 1);
+            }
+            o.sig = fnv(fnv(0, case.cfg.as_bytes()), format!("{}|{batch}", ops_short(&case.ops)).as_bytes());
+            let first = |k: &str| outs.iter().find(|e| e.kind == OutKind::Press && e.key == k).map(|e| e.t);
+            let n = |k: &str| outs.iter().filter(|e| e.kind == OutKind::Press && e.key == k).count();
+            o.nontrivial = n("Y") > 0;
+            // the last input (release of a): its arrival time
+            let li: u64 = case.ops.iter().take(4).map(|op| if let Op::Gap(g) = op { *g as u64 } else { 0 }).sum();
+            match (first("Y"), first("X")) {
+                (Some(fy), Some(fx)) => {
+                    // (a late loop counts idle time per iteration: resolution = one iteration)
+                    if fy + batch < li + t {
+                        o.set_fail("C18:on-idle-fired-early", format!("T={t}, {batch} ms per iteration: the first on-idle fired at {fy}, last input at {li}: {}", outs_short(&outs)), vec![]);
+                    } else if fx + batch < fy + t {
+                        o.set_fail("C18:on-idle-fired-early", format!("T={t}, {batch} ms per iteration: the chained on-idle was armed at {fy} and fired at {fx}: {}", outs_short(&outs)), vec![]);
+                    } else if n("X") != 1 || n("Y") != 1 {
+                        o.set_fail("C18:on-idle-fired-more-than-once", format!("y {} times, x {} times: {}", n("Y"), n("X"), outs_short(&outs)), vec![]);
+                    }
+                }
+                _ => o.set_fail("C18:on-idle-did-not-fire", format!("T={t}: idle for {} ms after the last input, y fired: {:?}, x fired: {:?}: {}", 4 * t + 50, first("Y"), first("X"), outs_short(&outs)), vec![]),
+            }
+            if want_sample {
+                o.sample = Some(sample_json(case, &outs, json!({"pop": "on-idle-chain"})));
+            }
+            return o;
         }
         if case.param("pop") == Some("hfd-mixed") {
             let mut st = match Stepper::new_filtered(&case.cfg, &case.files, Mode::Ticking) {
